@@ -228,6 +228,12 @@ def build_ann(ctx: wire.Ctx, a: dict, rng: random.Random) -> Any:
         xs = [build_ann(ctx, x, rng) for x in a["xs"]]
         if len(xs) == 1:
             return xs[0]
+        for i_ in range(len(xs)):
+            for j_ in range(i_):
+                if xs[i_] == xs[j_]:
+                    # typing merges members that compare equal (Literal[1, 2] == Literal[2, 1]): the annotation
+                    # object would not be the one the description says
+                    raise ValueError("union members compare equal: typing would merge them")
         if a.get("bar"):
             try:
                 u = xs[0] if xs[0] is not None else type(None)
@@ -477,6 +483,11 @@ def run_case(case: dict, rng: random.Random) -> Tuple[Optional[str], List[dict],
     from koda_validate.signature import resolve_signature_typehint_default
     ctx = wire.Ctx()
     try:
+        # typing caches parametrisations by *equality* of the arguments (Union[a, b] == Union[b, a],
+        # Literal[1, 2] == Literal[2, 1]): without clearing, Tuple[Union[date, bool]] can come back as the
+        # earlier-built Tuple[Union[bool, date]], i.e. not the annotation the description says
+        for _f in getattr(typing, "_cleanups", []):
+            _f()
         ann = build_ann(ctx, case["ann"], rng)
         resolver = get_typehint_validator if case["resolver"] == "default" else resolve_signature_typehint_default
         v = resolver(ann)
